@@ -132,9 +132,7 @@ def check_ast(ast, lay, fails, text, counts):
             fails.append((f"{cls}:outside-construct", {"text": text, "filename": FILENAME},
                           f"{c}: token {t.value!r} is not the token that opens a {cls} ({sorted(anchor)})"))
         if want is not None and t.value != want:
-            if cls == "ID" and want in ("offsetof", "*"):
-                pass
-            else:
+            if True:
                 fails.append((f"{cls}:wrong-token", {"text": text, "filename": FILENAME}, f"{c}: token {t.value!r} does not spell {want!r}"))
 
 
@@ -145,6 +143,16 @@ def _dirs(g):
     earlier tokens of another file."""
     if g is None:
         return None
+    if isinstance(g, (tuple, list)) and g[0] == "run":
+        # a run of directives on consecutive lines: the first names a file, the
+        # last only a line number (the name stays in force), and the reverse
+        k = g[1]
+        if k % 2 == 0:
+            return {k: [layout.line_directive(40 + k, f"run{k}.h", flags=(1,), keyword=False),
+                        layout.line_directive(300 + 5 * k, keyword=(k % 4 == 0))]}
+        return {k: [layout.line_directive(7000 + k, keyword=True),
+                    layout.line_directive(60 + k, f"nur{k}.h", keyword=(k % 4 == 1)),
+                    layout.line_directive(500 + 3 * k, keyword=False)]}
     if isinstance(g, (tuple, list)):
         k = g[1]
         return {k: [layout.line_directive(1, f"r{k}.h", flags=(1,), keyword=False)]}
@@ -217,6 +225,8 @@ def _work(task):
             gaps = [None] + list(range(nt + 1))
             if lname not in ("indented", "blanklines"):
                 gaps += [("reset", k) for k in range(1, nt + 1)]
+            if lname == "line":
+                gaps += [("run", k) for k in range(nt + 1)]
             for g in gaps:
                 acc, fl = evaluate(toks, lname, g, counts)
                 n += 1
